@@ -53,7 +53,7 @@ def gen(rng):
     steps.append(['d', home + '/precious/sub', 0o755])
     steps.append(['f', home + '/precious/sub/deep.txt', 'deep', 0o600])
     for v in L['vols']:
-        steps.append(['f', v + '/docs/volkeep', 'vk', 0o644])
+        steps.append(['f', L['work'][v] + '/volkeep', 'vk', 0o644])
     locs = [t for t in TG.trash_locations(L2) if t[2]]
     n = rng.choice([1, 2, 3, 5])
     names = []
@@ -61,7 +61,7 @@ def gen(rng):
         tdir, top, _u = rng.choice(locs)
         nm = rng.choice(['p%d' % i, 'x%d.trashinfo' % i, 'new\nline%d' % i, 'a b%d' % i, '-rf%d' % i, 'é%d' % i, '.dot%d' % i, '%%41%d' % i])
         names.append(nm)
-        loc = (home + '/w/' + nm) if top is None else (top + '/docs/' + nm)
+        loc = (home + '/w/' + nm) if top is None else (L['work'][top] + '/' + nm)
         pv = TG.pct(loc if top is None else loc[len(top) + 1:])
         kind = rng.choice(['abs_dir', 'abs_file', 'rel', 'dangling', 'chain', 'tree', 'tree', 'plain', 'vol_link'])
         steps.append(['d', tdir, 0o700])
@@ -80,7 +80,7 @@ def gen(rng):
             steps.append(['l', home + '/aux/hop%d' % i, home + '/precious'])
             steps.append(['l', p, home + '/aux/hop%d' % i])
         elif kind == 'vol_link' and L['vols']:
-            steps.append(['l', p, L['vols'][0] + '/docs'])
+            steps.append(['l', p, L['work'][L['vols'][0]]])
         elif kind == 'tree':
             d = p
             steps.append(['d', d, rng.choice([0o755, 0o700, 0o500])])
